@@ -848,10 +848,20 @@ impl Matcher {
                 })
                 .optional()?;
 
-            match sql {
-                Some(sql) => Ok(sql),
-                None => Err(MatcherError::MissingSql),
-            }
+            let sql = match sql {
+                Some(sql) => sql,
+                None => return Err(MatcherError::MissingSql),
+            };
+
+            // from here on this run owns the subscription: if the process dies before the
+            // restored task gets to run, changes committed meanwhile are lost to it, so the
+            // persisted state must not look cleanly finished anymore
+            conn.execute(
+                "INSERT OR REPLACE INTO meta (key, value) VALUES ('state', 'running')",
+                [],
+            )?;
+
+            Ok(sql)
         })?;
 
         let (matcher, handle) = Self::new(id, subs_path, schema, &state_conn, evt_tx, &sql)?;
